@@ -2434,6 +2434,103 @@ def sender_chunking_runs(ctx, pin):
             live_compare(ctx, scn2, "sendsize", spec, ref, pin)
 
 
+def asm_readiness_runs(ctx, pin):
+    """directed family (never cut by a budget): application payloads spanning the whole record-size
+    range, in both directions, received through AsyncStateMachine driven ONLY by real readiness
+    events - inReadEvent is delivered only while the in-memory socket holds bytes, exactly what a
+    select() loop / TLSAsyncDispatcherMixIn.readable() does; no polling of an empty socket.  Once the
+    socket is drained every byte the peer wrote must have been handed to outReadEvent (the bare
+    generators and the blocking read() deliver all of it)."""
+    from harness import lab
+    from tlslite.integration.asyncstatemachine import AsyncStateMachine
+
+    class Collector(AsyncStateMachine):
+        def __init__(self, conn):
+            AsyncStateMachine.__init__(self)
+            self.tlsConnection = conn
+            self.got = bytearray()
+            self.entry_bad = []
+
+        def outReadEvent(self, b):
+            if any((self.handshaker, self.closer, self.reader, self.writer)) or self.result is not None:
+                self.entry_bad.append(1)
+            self.got += b
+
+    singles = [1, 2, 100, 4095, 4096, 4097, 8192, 16383, 16384, 16385, 20000, 32768, 40000]
+    multis = [[16384, 16384, 1], [8192, 4097], [4097, 16384], [5000, 5000], [16385, 16385], [4096, 4096, 4096, 4096, 4096],
+              [100, 100], [1, 1, 1], [3000, 1], [16384, 5]]
+    allscn = {x["name"]: x for x in scenario_list(True)}
+    bases = ["ecdhe-3.3", "tls13-x25519", "rsa-3.1"] + (["cbc-etm-3.3", "rsa-3.0", "tls13-chacha", "dhe-3.2"] if ctx.thorough() else [])
+    recv_styles = ["none", "one", "rand", "wbk", "mid"]
+    for name in bases:
+        scn = allscn[name]
+        plans = [([n], d) for n in singles for d in ("c2s", "s2c")] + [(m, d) for m in multis for d in ("c2s", "s2c")]
+        for idx, (sizes, direction) in enumerate(plans):
+            style = recv_styles[idx % len(recv_styles)] if sum(sizes) <= 20000 else ["none", "rand", "mid"][idx % 3]
+            pin.reset()
+            L = lab.Lab()
+            c, sv = start_handshake(L, scn)
+            L.start_client(c)
+            L.start_server(sv)
+            run_gens(L, pin)
+            if not (L.client.state == "done" and L.server.state == "done"):
+                ctx.count("asm-readiness:handshake-failed:" + name)
+                continue
+            sender, receiver = ("client", "server") if direction == "c2s" else ("server", "client")
+            rx = "c2s" if receiver == "server" else "s2c"
+            data = [payload(n, "%s|%d|%d" % (direction, n, i)) for i, n in enumerate(sizes)]
+            L.end(receiver).sock.recv_schedule = sched_iter(style, idx, receiver + "r")
+            m = Collector(L.end(receiver).conn)
+            exc = None
+            events = 0
+            for d in data:                               # all writes back to back, then the reader is woken
+                L.end(sender).start(L.end(sender).conn.writeAsync(d))
+                run_gens(L, pin, only=(sender,))
+            pin.cur = receiver
+            try:
+                while (L.link.q[rx] or m.wantsWriteEvent()) and events < 400000:
+                    events += 1
+                    if m.wantsWriteEvent():
+                        m.inWriteEvent()
+                    else:
+                        m.inReadEvent()                  # readable: the socket holds bytes
+            except BaseException as e:  # noqa: BLE001 - classified
+                if isinstance(e, (KeyboardInterrupt, SystemExit, Hung)):
+                    raise
+                exc = e
+            finally:
+                pin.cur = None
+            want = b"".join(data)
+            conn = L.end(receiver).conn
+            in_plain = len(conn._readBuffer)
+            in_sock = len(conn.sock._read_buffer)
+            ctx.case(key=("asm-readiness", name, tuple(sizes), direction, style), nontrivial=True,
+                     sample={"scenario": name, "sizes": sizes, "direction": direction, "recv": style, "events": events}
+                     if (name, tuple(sizes), direction) == ("ecdhe-3.3", (16385,), "c2s") else None)
+            ctx.count("asm-readiness:" + ("single" if len(sizes) == 1 else "back-to-back"))
+            if exc is None and bytes(m.got) == want and not m.entry_bad:
+                continue
+            rep = {"stage": "asm-readiness", "scenario": name, "sizes": sizes, "direction": direction, "recv_style": style,
+                   "recv_seed": idx, "pin_seed": pin.seed, "delivered": len(m.got), "written": len(want),
+                   "left_in_plaintext_buffer": in_plain, "left_in_bufferedsocket": in_sock,
+                   "exception": lab.exc_class(exc), "events": events}
+            if exc is not None:
+                key, why = "c14:asm-readiness-raises", "raised %s" % lab.exc_class(exc)
+            elif bytes(m.got) != want[:len(m.got)]:
+                key, why = "c14:asm-readiness-wrong-data", "delivered different bytes"
+            elif in_plain and m.result is None:
+                key, why = ("c14:asm-read-event-leaves-plaintext-buffered",
+                            "%d decrypted bytes stay in the connection's read buffer" % in_plain)
+            elif in_sock and m.result is None:
+                key, why = ("c14:asm-readahead-strands-records",
+                            "%d bytes (complete records) stay in BufferedSocket's read-ahead buffer" % in_sock)
+            else:
+                key, why = "c14:asm-readiness-incomplete", "state %r" % (m.result,)
+            ctx.violation(key, "scenario %s, %s writes %s bytes %s; AsyncStateMachine driven by read-readiness events only "
+                          "delivered %d of %d bytes with the socket drained: %s (blocking read()/readAsync deliver everything)"
+                          % (name, sender, sizes, "back to back" if len(sizes) > 1 else "in one call", len(m.got), len(want), why), rep)
+
+
 def live_runs(ctx):
     rng = ctx.rng
     pin_seed = rng.randrange(1 << 30)
@@ -2454,6 +2551,7 @@ def live_runs(ctx):
         ctx.extra["live_scenarios"] = {n: [c["hs_client"], c["hs_server"]] for n, r in refs.items() for c in r["conns"][-1:]}
         # directed families first, outside the time budget
         sender_chunking_runs(ctx, pin)
+        asm_readiness_runs(ctx, pin)
         # every scenario under a few schedules; more as time allows
         round_no = 0
         while True:
@@ -2558,6 +2656,12 @@ def run(ctx):
 
 def replay(ctx, rep):
     inp = rep.get("input", {})
+    if inp.get("stage") == "asm-readiness":
+        with Pin(inp["pin_seed"]) as pin:
+            asm_readiness_runs(ctx, pin)
+        for v in ctx.violations:
+            print(v["what"])
+        return any(v["key"] == rep.get("key") for v in ctx.violations)
     if inp.get("stage") == "senderr":
         with Pin(inp["pin_seed"]) as pin:
             ch = None
